@@ -15,6 +15,7 @@ import (
 	"context"
 	"fmt"
 	"io"
+	"runtime"
 	"sort"
 	"sync"
 	"testing"
@@ -23,6 +24,7 @@ import (
 
 	"github.com/restic/restic/internal/backend"
 	"github.com/restic/restic/internal/backend/mem"
+	"github.com/restic/restic/internal/backend/sema"
 	"github.com/restic/restic/internal/repository"
 )
 
@@ -35,6 +37,7 @@ type c13Script struct {
 	rmFailFrom, rmFailTo time.Duration // lock removes in this window fail
 	removeAt           time.Duration // somebody else removes all lock files (0 = never)
 	idempotentRemove   bool          // removing a file that does not exist is not an error (as on object stores)
+	writeOnFreeze      bool          // a repository write is issued (with the lock context) while the backend is frozen
 	unlockAt           time.Duration
 }
 
@@ -60,6 +63,14 @@ func (b *c13Backend) rec(toks ...string) {
 func in(t, from, to time.Duration) bool { return to > from && t >= from && t < to }
 
 func (b *c13Backend) Save(ctx context.Context, h backend.Handle, rd backend.RewindReader) error {
+	if h.Type == backend.SnapshotFile && b.armed {
+		// a repository modification reaches the storage (which, like mem/local/sftp, ignores ctx)
+		b.mu.Lock()
+		c := b.ctx
+		b.mu.Unlock()
+		b.rec("write", I64(b.us()), B(c != nil && c.Err() != nil), h.Name[:8])
+		return b.Backend.Save(ctx, h, rd)
+	}
 	if h.Type != backend.LockFile || !b.armed {
 		return b.Backend.Save(ctx, h, rd)
 	}
@@ -121,22 +132,76 @@ func (b *c13Backend) Load(ctx context.Context, h backend.Handle, length int, off
 	return b.Backend.Load(ctx, h, length, offset, fn)
 }
 
-// Freeze / Unfreeze make the wrapper a backend.FreezeBackend: tryRefreshStaleLock calls them.
-func (b *c13Backend) Freeze() {
-	b.mu.Lock()
-	b.frozen = true
-	b.mu.Unlock()
-	b.rec("freeze", I64(b.us()))
+// c13Top is what the repository sees: the real sema wrapper (connection limit + freeze gate, as in
+// a real restic) over the recording/fault-injecting backend. Its Freeze/Unfreeze record the calls of
+// tryRefreshStaleLock and delegate to the sema wrapper.
+type c13Top struct {
+	backend.Backend // the sema wrapper
+	fb      backend.FreezeBackend
+	rec     *c13Backend
+	writers sync.WaitGroup
+	nwrite  int
 }
 
-func (b *c13Backend) Unfreeze() {
+func (t *c13Top) Freeze() {
+	t.fb.Freeze()
+	b := t.rec
+	b.mu.Lock()
+	b.frozen = true
+	c := b.ctx
+	b.mu.Unlock()
+	b.rec("freeze", I64(b.us()))
+	if b.sc.writeOnFreeze && c != nil && c.Err() == nil {
+		// a worker of the running command uploads a snapshot with the (still valid) lock context right
+		// now: it has to park at the freeze gate
+		t.nwrite++
+		name := fmt.Sprintf("%064x", t.nwrite)
+		var entered int32
+		var mu sync.Mutex
+		t.writers.Add(1)
+		go func() {
+			defer t.writers.Done()
+			mu.Lock()
+			entered = 1
+			mu.Unlock()
+			err := t.Backend.Save(c, backend.Handle{Type: backend.SnapshotFile, Name: name}, backend.NewByteReader([]byte("snapshot"), b.Backend.Hasher()))
+			class := "nil"
+			if err != nil {
+				class = "err"
+				if c.Err() != nil {
+					class = "ctx"
+				}
+			}
+			b.rec("write-ret", I64(b.us()), class, name[56:])
+		}()
+		// let the writer get into the wrapper (and to the gate) before the forced refresh goes on
+		for i := 0; i < 100000; i++ {
+			runtime.Gosched()
+			mu.Lock()
+			e := entered
+			mu.Unlock()
+			if e == 1 {
+				break
+			}
+		}
+		for i := 0; i < 300; i++ {
+			runtime.Gosched()
+		}
+	}
+}
+
+func (t *c13Top) Unfreeze() {
+	b := t.rec
 	b.mu.Lock()
 	b.frozen = false
 	c := b.ctx
 	b.mu.Unlock()
 	cancelled := c != nil && c.Err() != nil
 	b.rec("unfreeze", I64(b.us()), B(cancelled))
+	t.fb.Unfreeze()
 }
+
+func (t *c13Top) Unwrap() backend.Backend { return t.Backend }
 
 // A *testing.T (needed by testing/synctest) is obtained through testing.Main, which works in a
 // non-test binary: the whole stream runs as one "test"; testing.Main exits the process afterwards,
@@ -161,7 +226,9 @@ func c13InBubble(t *testing.T, name string, f func()) bool {
 // source; otherwise a locker with the given intervals (shim, as the repository's tests do).
 func c13RunCase(base backend.Backend, sc c13Script, ri, rt time.Duration) [][]string {
 	be := &c13Backend{Backend: base, sc: sc}
-	repo := repository.TestOpenBackend(TB, be)
+	sb := sema.NewBackend(be)
+	top := &c13Top{Backend: sb, fb: backend.AsBackend[backend.FreezeBackend](sb), rec: be}
+	repo := repository.TestOpenBackend(TB, top)
 	be.t0 = time.Now()
 	var logs []string
 	var logMu sync.Mutex
@@ -232,6 +299,7 @@ func c13RunCase(base backend.Backend, sc c13Script, ri, rt time.Duration) [][]st
 	be.rec("unlock-ret", I64(be.us()), B(wctx.Err() != nil))
 	close(stop)
 	wg.Wait()
+	top.writers.Wait()
 	n := 0
 	_ = base.List(context.Background(), backend.LockFile, func(backend.FileInfo) error { n++; return nil })
 	be.rec("files-left", Itoa(n))
@@ -342,6 +410,9 @@ func c13Stream(h *H, t *testing.T) {
 			sc.unlockAt = rnd(eri/2, ert) // early unlock
 		}
 		sc.idempotentRemove = h.Intn(2) == 0
+		// (not together with slow saves: a goroutine parked on the gate's mutex is not "durably blocked"
+		// for synctest, so virtual time could not advance during the forced refresh)
+		sc.writeOnFreeze = sc.slow == 0 && h.Intn(3) != 0
 		base := mem.New()
 		repository.TestRepositoryWithBackend(TB, base, 0, repository.Options{})
 		var out [][]string
@@ -351,7 +422,7 @@ func c13Stream(h *H, t *testing.T) {
 		})
 		h.Case("script")
 		d := func(x time.Duration) string { return I64(x.Microseconds()) }
-		h.Rec("params", d(eri), d(ert), kind, B(ri == 0), B(sc.idempotentRemove))
+		h.Rec("params", d(eri), d(ert), kind, B(ri == 0), B(sc.idempotentRemove), B(sc.writeOnFreeze))
 		failTo := sc.failTo
 		if failTo > 100*time.Hour {
 			failTo = 100 * time.Hour
